@@ -342,3 +342,31 @@ Fixpoint check_tb_S (rows : Z) (before : list (dtype * list val)) (hist : list t
       list_eqb dtype_eqb (tbs_dtypes seen) (map fst (tbs_cols seen)) &&
       check_tb_S rows (tbs_cols seen) r
   end.
+
+(* ---------------------------------------------------------------- IndexHierarchyGO: CHAINS of growth calls with no read in
+   between (only the outcome of every call is recorded), observed once at the end *)
+Definition hchain_rec := (vhop * outcome)%type.
+
+Fixpoint check_hgo_M_chain_from (h : vhgo) (ops : list hchain_rec) (final : hseen) : bool :=
+  match ops with
+  | [] => tuples_eqb (flatten val (h_tree h)) (hs_labels final) && (lvl_len val (h_tree h) =? hs_len final)
+  | (op, out) :: r =>
+      let '(h1, o) := M_hstep val lab_eq h op in
+      outcome_eqb o out && check_hgo_M_chain_from h1 r final
+  end.
+
+Definition check_hgo_M_chain (t : lvl val) (depth : Z) (ops : list hchain_rec) (final : hseen) : bool :=
+  check_hgo_M_chain_from (mk_hgo t depth) ops final.
+
+(* specification: every accepted call contributed exactly its labels, in order, all new and of the right depth;
+   every refused call contributed nothing; duplicates / wrong depth must have been refused; at the end all
+   readers agree *)
+Fixpoint check_hgo_S_chain (depth : Z) (acc : list (list val)) (ops : list hchain_rec) (final : hseen) : bool :=
+  match ops with
+  | [] => tuples_eqb (hs_labels final) acc && (hs_len final =? zlen acc) &&
+          match hs_coherent final with Some true => true | _ => false end
+  | (op, out) :: r =>
+      if is_ok out
+      then negb (S_hstep_must_reject val lab_eq depth acc op) && check_hgo_S_chain depth (acc ++ hop_given val op) r final
+      else check_hgo_S_chain depth acc r final
+  end.
